@@ -56,15 +56,26 @@ def mk_classes():
             self.b > 1
 
     @vsc.randobj
+    class G(object):
+        """two sub-objects of class K; a class-level block references the dynamic block of ONE of them"""
+        def __init__(self):
+            self.p = vsc.rand_attr(K())
+            self.q = vsc.rand_attr(K())
+
+        @vsc.constraint
+        def cg(self):
+            self.q.d2()
+
+    @vsc.randobj
     class H(object):
         def __init__(self):
             self.l = vsc.rand_list_t(K())
             for _ in range(2):
                 self.l.append(K())
-    return K, H, J
+    return K, H, J, G
 
 
-SLOTS = ["k0", "k1", "k2", "h0", "j0", "j1"]
+SLOTS = ["k0", "k1", "k2", "h0", "j0", "j1", "g0"]
 
 # inline menu for a K instance: name -> (builder(it), predicate(a,b))
 K_INLINE = {
@@ -100,22 +111,34 @@ J_INLINE = {
 }
 
 
+# holder with two sub-objects: name -> (builder, {sub-object: predicate})
+G_INLINE = {
+    "p.d1": (lambda it: it.p.d1(), {"p": lambda a, b: a < 2}),
+    "q.d1": (lambda it: it.q.d1(), {"q": lambda a, b: a < 2}),
+    "p.d2&q.d1": (lambda it: it.p.d2() & it.q.d1(), {"p": lambda a, b: b > 1, "q": lambda a, b: a < 2}),
+    "~p.d1": (lambda it: ~it.p.d1(), {"p": lambda a, b: not a < 2}),
+    "p.a==3": (lambda it: it.p.a == 3, {"p": lambda a, b: a == 3}),
+}
+
+
 def base_pred(a, b):
     return a <= b
 
 
 class World(object):
     def __init__(self):
-        self.K, self.H, self.J = mk_classes()
+        self.K, self.H, self.J, self.G = mk_classes()
         self.objs = {}
 
     def create(self, slot):
-        self.objs[slot] = self.H() if slot == "h0" else self.J() if slot.startswith("j") else self.K()
+        self.objs[slot] = self.H() if slot == "h0" else self.G() if slot == "g0" else self.J() if slot.startswith("j") else self.K()
 
     def instances(self, slot):
         o = self.objs[slot]
         if slot == "h0":
             return [("h0.l[0]", o.l[0]), ("h0.l[1]", o.l[1])]
+        if slot == "g0":
+            return [("g0.p", o.p), ("g0.q", o.q)]
         return [(slot, o)]
 
     def all_instances(self):
@@ -134,7 +157,7 @@ class World(object):
         o.set_randstate(SRandState(script))
         if kind == "rand":
             return common.outcome(o.randomize)
-        bld = (H_INLINE if slot == "h0" else J_INLINE if slot.startswith("j") else K_INLINE)[op[2]][0]
+        bld = (H_INLINE if slot == "h0" else G_INLINE if slot == "g0" else J_INLINE if slot.startswith("j") else K_INLINE)[op[2]][0]
 
         def f():
             with o.randomize_with() as it:
@@ -188,7 +211,7 @@ def enabled_ops(w):
     for s in SLOTS:
         if s in w.objs:
             ops.append(["rand", s])
-            for nm in (H_INLINE if s == "h0" else J_INLINE if s.startswith("j") else K_INLINE):
+            for nm in (H_INLINE if s == "h0" else G_INLINE if s == "g0" else J_INLINE if s.startswith("j") else K_INLINE):
                 ops.append(["with", s, nm])
     return ops
 
@@ -203,6 +226,13 @@ def expected_sets(op):
         for i in (0, 1):
             p = preds.get(i)
             out["h0.l[%d]" % i] = set(t for t in full if p is None or p(*t))
+        return out
+    if slot == "g0":
+        preds = G_INLINE[op[2]][1] if op[0] == "with" else {}
+        out = {}
+        for sub in ("p", "q"):
+            pr = preds.get(sub)
+            out["g0." + sub] = set(t for t in full if (pr is None or pr(*t)) and (sub != "q" or t[1] > 1))
         return out
     if slot.startswith("j"):
         p = J_INLINE[op[2]][1] if op[0] == "with" else None
